@@ -309,24 +309,24 @@ fn ws_unit<const N: usize>(which: u8, ctx: u8) {
     std::mem::forget(sc);
 }
 macro_rules! ws_harness {
-    ($name:ident, $n:expr, $which:expr, $ctx:expr) => {
+    ($name:ident, $n:expr, $which:expr, $ctx:expr, $unw:expr) => {
         #[kani::proof]
-        #[kani::unwind(8)]
+        #[kani::unwind($unw)]
         pub fn $name() {
             ws_unit::<$n>($which, $ctx);
         }
     };
 }
-ws_harness!(c12_skip_to_next_token_top_2, 2, 0, 0);
-ws_harness!(c12_skip_to_next_token_block_2, 2, 0, 1);
-ws_harness!(c12_skip_to_next_token_flow_2, 2, 0, 2);
-ws_harness!(c12_skip_yaml_whitespace_top_2, 2, 1, 0);
-ws_harness!(c12_skip_to_next_token_top_3, 3, 0, 0);
-ws_harness!(c12_skip_to_next_token_block_3, 3, 0, 1);
-ws_harness!(c12_skip_to_next_token_flow_3, 3, 0, 2);
-ws_harness!(c12_skip_yaml_whitespace_top_3, 3, 1, 0);
-ws_harness!(c12_skip_to_next_token_top_4, 4, 0, 0);
-ws_harness!(c12_skip_to_next_token_block_4, 4, 0, 1);
+ws_harness!(c12_skip_to_next_token_top_2, 2, 0, 0, 5);
+ws_harness!(c12_skip_to_next_token_block_2, 2, 0, 1, 5);
+ws_harness!(c12_skip_to_next_token_flow_2, 2, 0, 2, 5);
+ws_harness!(c12_skip_yaml_whitespace_top_2, 2, 1, 0, 5);
+ws_harness!(c12_skip_to_next_token_top_3, 3, 0, 0, 6);
+ws_harness!(c12_skip_to_next_token_block_3, 3, 0, 1, 6);
+ws_harness!(c12_skip_to_next_token_flow_3, 3, 0, 2, 6);
+ws_harness!(c12_skip_yaml_whitespace_top_3, 3, 1, 0, 6);
+ws_harness!(c12_skip_to_next_token_top_4, 4, 0, 0, 7);
+ws_harness!(c12_skip_to_next_token_block_4, 4, 0, 1, 7);
 
 /// C14: the same unit on a CR-free text X and on X with every LF replaced by CR LF (or lone CR)
 /// ends with the same outcome, at the same line and column, before the same character.
@@ -379,22 +379,22 @@ fn ws_break_style<const N: usize>(which: u8, ctx: u8) {
     std::mem::forget((a, b));
 }
 macro_rules! ws_break_harness {
-    ($name:ident, $n:expr, $which:expr, $ctx:expr) => {
+    ($name:ident, $n:expr, $which:expr, $ctx:expr, $unw:expr) => {
         #[kani::proof]
-        #[kani::unwind(10)]
+        #[kani::unwind($unw)]
         pub fn $name() {
             ws_break_style::<$n>($which, $ctx);
         }
     };
 }
-ws_break_harness!(c14_skip_to_next_token_top_2, 2, 0, 0);
-ws_break_harness!(c14_skip_to_next_token_block_2, 2, 0, 1);
-ws_break_harness!(c14_skip_yaml_whitespace_top_2, 2, 1, 0);
-ws_break_harness!(c14_skip_yaml_whitespace_flow_2, 2, 1, 2);
-ws_break_harness!(c14_skip_to_next_token_top_3, 3, 0, 0);
-ws_break_harness!(c14_skip_to_next_token_block_3, 3, 0, 1);
-ws_break_harness!(c14_skip_yaml_whitespace_top_3, 3, 1, 0);
-ws_break_harness!(c14_skip_yaml_whitespace_flow_3, 3, 1, 2);
+ws_break_harness!(c14_skip_to_next_token_top_2, 2, 0, 0, 7);
+ws_break_harness!(c14_skip_to_next_token_block_2, 2, 0, 1, 7);
+ws_break_harness!(c14_skip_yaml_whitespace_top_2, 2, 1, 0, 7);
+ws_break_harness!(c14_skip_yaml_whitespace_flow_2, 2, 1, 2, 7);
+ws_break_harness!(c14_skip_to_next_token_top_3, 3, 0, 0, 9);
+ws_break_harness!(c14_skip_to_next_token_block_3, 3, 0, 1, 9);
+ws_break_harness!(c14_skip_yaml_whitespace_top_3, 3, 1, 0, 9);
+ws_break_harness!(c14_skip_yaml_whitespace_flow_3, 3, 1, 2, 9);
 
 /// C04: every double-quoted escape decodes to the code point the YAML 1.2 table gives it; \x, \u,
 /// \U decode their hex digits; anything else is an error. Text after the backslash is symbolic.
@@ -594,4 +594,137 @@ pub fn c01_block_scalar_indent_buffered() {
     kani::cover!(spaces >= 15 && indent >= 15, "must: indentation at the buffer size reached");
     std::mem::forget(breaks);
     std::mem::forget(sc);
+}
+
+// ------------------------------------------------------------------------------------------------
+// More scanner units with a concrete shape and symbolic contents
+// ------------------------------------------------------------------------------------------------
+
+/// C12/C10: reading the rest of a block-scalar content line through the raw (unbuffered) path
+/// advances the mark by the number of CHARACTERS read, for every line of 2 characters with the given
+/// UTF-8 widths (the widths are harness parameters: a string of symbolic byte length makes every
+/// push a symbolic-size growth step; the characters are symbolic within their width class)
+/// followed by a break or the end of input.
+fn content_line_counts_chars(w1: usize, w2: usize) {
+    let mut buf = [0u8; MAXT];
+    let mut n = 0;
+    let widths = [w1, w2];
+    let mut i = 0;
+    while i < 2 {
+        let c: u32 = kani::any();
+        let w = widths[i];
+        match w {
+            1 => {
+                kani::assume(c >= 1 && c < 0x80 && c != 0x0A && c != 0x0D);
+                buf[n] = c as u8;
+            }
+            2 => {
+                kani::assume(c >= 0x80 && c < 0x800);
+                buf[n] = 0xC0 | (c >> 6) as u8;
+                buf[n + 1] = 0x80 | (c & 0x3F) as u8;
+            }
+            3 => {
+                kani::assume(c >= 0x800 && c < 0x10000 && !(c >= 0xD800 && c <= 0xDFFF));
+                buf[n] = 0xE0 | (c >> 12) as u8;
+                buf[n + 1] = 0x80 | ((c >> 6) & 0x3F) as u8;
+                buf[n + 2] = 0x80 | (c & 0x3F) as u8;
+            }
+            _ => {
+                kani::assume(c >= 0x10000 && c <= 0x10FFFF);
+                buf[n] = 0xF0 | (c >> 18) as u8;
+                buf[n + 1] = 0x80 | ((c >> 12) & 0x3F) as u8;
+                buf[n + 2] = 0x80 | ((c >> 6) & 0x3F) as u8;
+                buf[n + 3] = 0x80 | (c & 0x3F) as u8;
+            }
+        }
+        n += w;
+        i += 1;
+    }
+    let with_break: bool = kani::any();
+    buf[n] = b'\n';
+    let total = if with_break { n + 1 } else { n };
+    let s = as_str(&buf, total, "line");
+    let mut sc = Scanner::new(StrInput::new(s));
+    let m0 = sym_mark();
+    sc.mark = m0;
+    let mut string = String::with_capacity(16);
+    let mut line_buffer = String::with_capacity(16);
+    sc.scan_block_scalar_content_line(&mut string, &mut line_buffer);
+    assert!(total - sc.input.verif_remaining() == n, "C05: content line not read up to the break");
+    assert!(sc.mark.index() == m0.index() + 2 && sc.mark.col() == m0.col() + 2 && sc.mark.line() == m0.line(), "C12: position after a block scalar line is not the number of characters read");
+    assert!(string.len() == n, "C05: content line text has the wrong length");
+    kani::cover!(with_break, "must: line ended by a break reached");
+    std::mem::forget((string, line_buffer));
+    std::mem::forget(sc);
+}
+#[kani::proof]
+#[kani::unwind(10)]
+pub fn c12_block_scalar_content_line_counts_chars_1_2() {
+    content_line_counts_chars(1, 2);
+}
+#[kani::proof]
+#[kani::unwind(10)]
+pub fn c12_block_scalar_content_line_counts_chars_3_4() {
+    content_line_counts_chars(3, 4);
+}
+
+/// C14/C04: an escaped line break inside a double-quoted scalar consumes the backslash and exactly
+/// one break of ANY style (LF, CR LF, lone CR), adds nothing to the text and starts a new line.
+fn escaped_line_break(style: u8) {
+    let mut buf = [0u8; MAXT];
+    buf[0] = b'\\';
+    let mut n = 1;
+    match style {
+        0 => {
+            buf[1] = b'\n';
+            n = 2;
+        }
+        1 => {
+            buf[1] = b'\r';
+            buf[2] = b'\n';
+            n = 3;
+        }
+        _ => {
+            buf[1] = b'\r';
+            n = 2;
+        }
+    }
+    let brk = n;
+    let next: u8 = kani::any();
+    kani::assume(next == b'b' || next == b' ' || next == b'"' || next == b'\n');
+    buf[n] = next;
+    n += 1;
+    let s = as_str(&buf, n, "text");
+    let mut sc = Scanner::new(StrInput::new(s));
+    let m0 = sym_mark();
+    sc.mark = m0;
+    let mut string = String::with_capacity(8);
+    let mut leading_blanks = false;
+    let start = m0;
+    let r = sc.consume_flow_scalar_non_whitespace_chars(false, &mut string, &mut leading_blanks, &start);
+    assert!(r.is_ok(), "C04: escaped line break rejected");
+    assert!(n - sc.input.verif_remaining() == brk, "C14: an escaped line break did not consume exactly the backslash and one break");
+    assert!(sc.mark.line() == m0.line() + 1 && sc.mark.col() == 0 && sc.mark.index() == m0.index() + brk, "C14: position after an escaped line break depends on the break style");
+    assert!(string.is_empty() && leading_blanks, "C04: an escaped line break added text or did not start line folding");
+    kani::cover!(true, "must: compared");
+    std::mem::forget(r);
+    std::mem::forget(string);
+    std::mem::forget(sc);
+}
+// the break style is a harness parameter: with a symbolic style the first character pair is
+// symbolic and the symbolic execution explores the whole escape decoder and the push paths
+#[kani::proof]
+#[kani::unwind(6)]
+pub fn c14_escaped_line_break_lf() {
+    escaped_line_break(0);
+}
+#[kani::proof]
+#[kani::unwind(6)]
+pub fn c14_escaped_line_break_crlf() {
+    escaped_line_break(1);
+}
+#[kani::proof]
+#[kani::unwind(6)]
+pub fn c14_escaped_line_break_cr() {
+    escaped_line_break(2);
 }
